@@ -184,6 +184,7 @@ Proof. exact tie_default_zip. Qed.
    default, FromIterator from_iter; the panic-safety theorems above cover exactly these bodies *)
 From GA Require Import SigTie.
 From GAGen Require Import GenSigs.
+Local Open Scope string_scope.
 Theorem C04_source_impl_methods :
   methods_of "Clone for GenericArray<T,N>" = Some ["clone"] /\
   methods_of "Default for GenericArray<T,N>" = Some ["default"] /\
